@@ -8,6 +8,7 @@ package metadata
 
 import (
 	"context"
+	"errors"
 	"fmt"
 	"io"
 	"log"
@@ -65,6 +66,19 @@ func (c *vpmetaClock) Advance(d int64) {
 
 const vpmetaMagic = 3456
 
+// vpmetaFail fails the case; failures that only say "the machine was too slow" (SQLite busy timeout,
+// the 5 s close deadline) are reported as inconclusive, never as a violation.
+func vpmetaFail(t vpT, format string, args ...any) {
+	msg := fmt.Sprintf(format, args...)
+	for _, s := range []string{"database is locked", "SQLITE_BUSY", "deadline exceeded", "tx commit failed", "tx begin failed"} {
+		if strings.Contains(msg, s) && !strings.HasPrefix(msg, "VP-INCONCLUSIVE") {
+			msg = "VP-INCONCLUSIVE real-time limit hit (overloaded machine?): " + msg
+			break
+		}
+	}
+	t.Fatalf("%s", msg)
+}
+
 // vpmetaEnv is one database instance: a db file plus the binlog (directory) it runs on.
 type vpmetaEnv struct {
 	root   string // scratch root that owns everything (removed by Cleanup of the owner)
@@ -81,7 +95,7 @@ var vpmetaCtx = context.Background()
 func vpmetaMkRoot(t vpT) string {
 	root, err := os.MkdirTemp("", "vpmeta")
 	if err != nil {
-		t.Fatalf("mkdtemp: %v", err)
+		vpmetaFail(t, "mkdtemp: %v", err)
 	}
 	return root
 }
@@ -96,11 +110,11 @@ func vpmetaCreate(t vpT, root, name string, opt Options, chunk uint32, clock *vp
 	e := &vpmetaEnv{root: root, blDir: filepath.Join(root, name, "bl"), dbPath: filepath.Join(root, name, "db", "db"), opt: opt, chunk: chunk, clock: clock}
 	for _, d := range []string{e.blDir, filepath.Dir(e.dbPath)} {
 		if err := os.MkdirAll(d, 0o755); err != nil {
-			t.Fatalf("mkdir: %v", err)
+			vpmetaFail(t, "mkdir: %v", err)
 		}
 	}
 	if _, err := fsbinlog.CreateEmptyFsBinlog(vpmetaBinlogOptions(e.blDir, chunk)); err != nil {
-		t.Fatalf("create binlog: %v", err)
+		vpmetaFail(t, "create binlog: %v", err)
 	}
 	e.Open(t)
 	return e
@@ -110,7 +124,7 @@ func vpmetaCreate(t vpT, root, name string, opt Options, chunk uint32, clock *vp
 // the db file has not seen yet.
 func (e *vpmetaEnv) Open(t vpT) {
 	if err := e.TryOpen(); err != nil {
-		t.Fatalf("OpenDB(%s): %v", e.dbPath, err)
+		vpmetaFail(t, "OpenDB(%s): %v", e.dbPath, err)
 	}
 }
 
@@ -139,7 +153,11 @@ func (e *vpmetaEnv) Close(t vpT) {
 	err := e.db.Close()
 	e.db = nil
 	if err != nil {
-		t.Fatalf("Close: %v", err)
+		if errors.Is(err, context.DeadlineExceeded) {
+			// DBV2.Close gives the engine 5 s of real time; on an overloaded machine that is not a verdict
+			vpmetaFail(t, "VP-INCONCLUSIVE Close did not finish within the 5 s DBV2.Close allows (overloaded machine?): %v", err)
+		}
+		vpmetaFail(t, "Close: %v", err)
 	}
 }
 
@@ -175,18 +193,18 @@ func vpmetaCopyFile(src, dst string) error {
 
 func vpmetaCopyDir(t vpT, src, dst string) {
 	if err := os.MkdirAll(dst, 0o755); err != nil {
-		t.Fatalf("mkdir: %v", err)
+		vpmetaFail(t, "mkdir: %v", err)
 	}
 	ents, err := os.ReadDir(src)
 	if err != nil {
-		t.Fatalf("readdir: %v", err)
+		vpmetaFail(t, "readdir: %v", err)
 	}
 	for _, en := range ents {
 		if en.IsDir() {
 			continue
 		}
 		if err := vpmetaCopyFile(filepath.Join(src, en.Name()), filepath.Join(dst, en.Name())); err != nil {
-			t.Fatalf("copy: %v", err)
+			vpmetaFail(t, "copy: %v", err)
 		}
 	}
 }
@@ -194,7 +212,7 @@ func vpmetaCopyDir(t vpT, src, dst string) {
 // SaveDBFiles copies the db file (and its WAL files, if any are left) of a CLOSED instance.
 func (e *vpmetaEnv) SaveDBFiles(t vpT, dstDir string) {
 	if e.db != nil {
-		t.Fatalf("harness: SaveDBFiles on an open db")
+		vpmetaFail(t, "harness: SaveDBFiles on an open db")
 	}
 	vpmetaCopyDir(t, filepath.Dir(e.dbPath), dstDir)
 }
@@ -204,14 +222,14 @@ func (e *vpmetaEnv) SaveDBFiles(t vpT, dstDir string) {
 // absent, so everything is replayed from the binlog. src must be closed.
 func vpmetaFork(t vpT, src *vpmetaEnv, name, dbDir string) *vpmetaEnv {
 	if src.db != nil {
-		t.Fatalf("harness: fork of an open db")
+		vpmetaFail(t, "harness: fork of an open db")
 	}
 	e := &vpmetaEnv{root: src.root, blDir: filepath.Join(src.root, name, "bl"), dbPath: filepath.Join(src.root, name, "db", "db"), opt: src.opt, chunk: src.chunk, clock: src.clock}
 	vpmetaCopyDir(t, src.blDir, e.blDir)
 	if dbDir != "" {
 		vpmetaCopyDir(t, dbDir, filepath.Dir(e.dbPath))
 	} else if err := os.MkdirAll(filepath.Dir(e.dbPath), 0o755); err != nil {
-		t.Fatalf("mkdir: %v", err)
+		vpmetaFail(t, "mkdir: %v", err)
 	}
 	return e
 }
@@ -273,23 +291,23 @@ func vpmetaJournalPaged(t vpT, db *DBV2, since, page int64) []vpmetaEvent {
 	for i := 0; ; i++ {
 		evs, err := db.JournalEvents(vpmetaCtx, since, page)
 		if err != nil {
-			t.Fatalf("JournalEvents(%d,%d): %v", since, page, err)
+			vpmetaFail(t, "JournalEvents(%d,%d): %v", since, page, err)
 		}
 		if len(evs) == 0 {
 			return out
 		}
 		if int64(len(evs)) > page {
-			t.Fatalf("JournalEvents(%d,%d) returned %d events, more than the page", since, page, len(evs))
+			vpmetaFail(t, "JournalEvents(%d,%d) returned %d events, more than the page", since, page, len(evs))
 		}
 		for _, ev := range evs {
 			out = append(out, vpmetaFromTL(ev))
 		}
 		if evs[len(evs)-1].Version <= since {
-			t.Fatalf("JournalEvents(%d,%d) returned version %d <= since: paging cannot make progress", since, page, evs[len(evs)-1].Version)
+			vpmetaFail(t, "JournalEvents(%d,%d) returned version %d <= since: paging cannot make progress", since, page, evs[len(evs)-1].Version)
 		}
 		since = evs[len(evs)-1].Version
 		if i > 100000 {
-			t.Fatalf("journal paging does not terminate")
+			vpmetaFail(t, "journal paging does not terminate")
 		}
 	}
 }
@@ -301,7 +319,7 @@ func vpmetaAllMappings(t vpT, db *DBV2, page int32) ([]vpmetaPair, int32) {
 	for i := 0; ; i++ {
 		ms, mx, err := db.GetNewMappings(vpmetaCtx, from, page, nil)
 		if err != nil {
-			t.Fatalf("GetNewMappings(%d,%d): %v", from, page, err)
+			vpmetaFail(t, "GetNewMappings(%d,%d): %v", from, page, err)
 		}
 		maxID = mx
 		if len(ms) == 0 {
@@ -309,13 +327,13 @@ func vpmetaAllMappings(t vpT, db *DBV2, page int32) ([]vpmetaPair, int32) {
 		}
 		for _, m := range ms {
 			if m.Value <= from {
-				t.Fatalf("GetNewMappings(%d) returned id %d", from, m.Value)
+				vpmetaFail(t, "GetNewMappings(%d) returned id %d", from, m.Value)
 			}
 			out = append(out, vpmetaPair{ID: m.Value, Key: m.Str})
 			from = m.Value
 		}
 		if i > 100000 {
-			t.Fatalf("mapping paging does not terminate")
+			vpmetaFail(t, "mapping paging does not terminate")
 		}
 	}
 }
@@ -336,7 +354,7 @@ func vpmetaFloodTable(t vpT, db *DBV2) []vpmetaFlood {
 		return cache, rows.Error()
 	})
 	if err != nil {
-		t.Fatalf("read flood_limits: %v", err)
+		vpmetaFail(t, "read flood_limits: %v", err)
 	}
 	sort.Slice(out, func(i, j int) bool { return out[i].Metric < out[j].Metric })
 	return out
@@ -354,7 +372,7 @@ func vpmetaPairsFromTL(ms []tlstatshouse.Mapping) []vpmetaPair {
 func vpmetaHistoryOf(t vpT, db *DBV2, id int64) []vpmetaHistoryEntry {
 	h, err := db.GetHistoryShort(vpmetaCtx, id)
 	if err != nil {
-		t.Fatalf("GetHistoryShort(%d): %v", id, err)
+		vpmetaFail(t, "GetHistoryShort(%d): %v", id, err)
 	}
 	out := make([]vpmetaHistoryEntry, 0, len(h.Events))
 	for _, he := range h.Events {
@@ -389,7 +407,7 @@ func vpmetaSnapshot(t vpT, db *DBV2, journalPage int64, ids []int64, keys []stri
 	for _, k := range keys {
 		id, notExists, err := db.GetMappingByValue(vpmetaCtx, k)
 		if err != nil {
-			t.Fatalf("GetMappingByValue(%q): %v", k, err)
+			vpmetaFail(t, "GetMappingByValue(%q): %v", k, err)
 		}
 		if notExists {
 			id = 0
@@ -402,7 +420,7 @@ func vpmetaSnapshot(t vpT, db *DBV2, journalPage int64, ids []int64, keys []stri
 	for _, id := range mapIDs {
 		k, ok, err := db.GetMappingByID(vpmetaCtx, id)
 		if err != nil {
-			t.Fatalf("GetMappingByID(%d): %v", id, err)
+			vpmetaFail(t, "GetMappingByID(%d): %v", id, err)
 		}
 		if !ok {
 			k = vpmetaAbsent
@@ -411,7 +429,7 @@ func vpmetaSnapshot(t vpT, db *DBV2, journalPage int64, ids []int64, keys []stri
 	}
 	bs, err := db.GetBootstrap(vpmetaCtx)
 	if err != nil {
-		t.Fatalf("GetBootstrap: %v", err)
+		vpmetaFail(t, "GetBootstrap: %v", err)
 	}
 	s.Bootstrap = vpmetaPairsFromTL(bs.Mappings)
 	s.Flood = vpmetaFloodTable(t, db)
